@@ -7,6 +7,6 @@ CONSTANTS
   DVals <- D2
   MaxIters = 14
   Degenerate = TRUE
-  StopOnExactRoot = FALSE
+  StopOnExactRoot = TRUE
 INVARIANT Emit
 CHECK_DEADLOCK FALSE
